@@ -45,13 +45,35 @@ namespace sim
 		assert(m_timer_queue.empty());
 	}
 
+#ifdef LIBSIMULATOR_VERIF
+	// verification hook (inert unless the library is built with
+	// -DLIBSIMULATOR_VERIF *and* the pointer is set): called with 1 at the top of
+	// every round of run() and with 0 after every handler execution
+	namespace aux { void (*verif_step_hook)(int) = nullptr; }
+#endif
+
 	std::size_t simulation::run() try
 	{
 		std::size_t ret = 0;
 		std::size_t last_executed = 0;
 		do {
 
+#ifdef LIBSIMULATOR_VERIF
+			if (aux::verif_step_hook) aux::verif_step_hook(1);
+#endif
 			m_service.restart();
+#ifdef LIBSIMULATOR_VERIF
+			if (aux::verif_step_hook)
+			{
+				last_executed = 0;
+				while (m_service.poll_one() > 0)
+				{
+					++last_executed;
+					aux::verif_step_hook(0);
+				}
+			}
+			else
+#endif
 			last_executed = m_service.poll();
 			ret += last_executed;
 
